@@ -70,6 +70,10 @@ def _check_history(case, strict):
             harness.CURRENT["raw_timeout"] = bool(case.get("raw_timeout"))
             cls.add("reply-dropped")
         for op in case["ops"]:
+            if "reqs" in op:
+                # the step budget only tells a terminating call from an endless one: it grows with the data the call legitimately moves
+                # (a structure element of several kilobytes read from a target that returns 20 bytes per fragment needs thousands of frames)
+                harness.CURRENT["budget"] += S._traffic_bound(p, op["reqs"])
             try:
                 if op["op"] == "generic":
                     plc.generic_message(service=0x0E, class_code=1, instance=1, attribute=op["attr"], connected=True)
